@@ -74,6 +74,16 @@ import os as _os
 TRACE = bool(_os.environ.get("VERIF_TRACE"))
 
 
+class SymOrdering:
+    """the (Option of an) ordering of two symbolic values: what `partial_cmp` answers when a client table keeps the operands
+    symbolic; `lt` / `le` / `gt` / `ge` built on it become tests on the two operands"""
+    def __init__(self, l, r):
+        self.l, self.r = l, r
+
+    def __repr__(self):
+        return "(cmp %r %r)" % (self.l, self.r)
+
+
 class LazyIter(Iter):
     """an iterator adaptor: items are produced (and the closures behind them run) when the consumer asks, as in Rust"""
     def __init__(self, gen):
@@ -351,6 +361,11 @@ class Machine:
             r = self.intercept(self, c, a, tt, g)
             if r is not NOT:
                 return r
+        if c.endswith("::fmt") and ("fmt::Display" in c or "fmt::Debug" in c) and len(a) == 2 and isinstance(a[1], Sink) and \
+                (a[0] is UNKNOWN or not isinstance(a[0], (Enum, list, str, int, bool, Text))):
+            # an opaque token handed to a Display / Debug impl directly (`inner.fmt(f)`): it prints as itself
+            a[1].parts.append(Hole(a[0], "", "display" if "Display" in c else "debug"))
+            return ok([])
         r = self._fmt_model(c, a, raw, tt, g, env)
         if r is not NOT:
             return r
@@ -381,6 +396,33 @@ class Machine:
             h0 = self.resolve_by_type(c, tt)
             if h0 is not None and self.inline(c):
                 return self.run(h0, raw, generics=self.subst_generics((tt.get("fn") or {}).get("generics")))
+        if c.rsplit("::", 1)[-1] in ("lt", "le", "gt", "ge") and c.rsplit("::", 1)[0].endswith("cmp::PartialOrd") and len(raw) == 2:
+            # the provided methods of PartialOrd on a type whose partial_cmp is written in the crate: that partial_cmp decides
+            h_pc = self.resolve_by_type(c.rsplit("::", 1)[0] + "::partial_cmp", tt)
+            if h_pc is not None and self.inline(h_pc.name):
+                op_ = c.rsplit("::", 1)[-1]
+                r = self.run(h_pc, raw, generics=self.subst_generics((tt.get("fn") or {}).get("generics")))
+                if isinstance(r, SymOrdering):
+                    if absint.SYM_COMPARE is None:
+                        raise Stuck("a comparison of symbolic values with no table to decide it")
+                    saved_ = (absint.CUR_F[0], absint.CUR_B[0])
+                    absint.CUR_F[0], absint.CUR_B[0] = None, None          # (not a test sitting at a terminator of the current function)
+                    try:
+                        return absint.SYM_COMPARE(op_, r.l, r.r)
+                    finally:
+                        absint.CUR_F[0], absint.CUR_B[0] = saved_
+                o_ = None
+                if isinstance(r, Enum) and getattr(r, "name", None) == "None":
+                    return False                                # incomparable: every one of < <= > >= is false
+                if isinstance(r, Enum) and r.fields:
+                    x_ = r.fields[0]
+                    o_ = {"Less": -1, "Equal": 0, "Greater": 1}.get(getattr(x_, "name", None)) if isinstance(x_, Enum) else (
+                        (-1 if x_ == 255 else x_) if isinstance(x_, int) and not isinstance(x_, bool) and x_ in (-1, 0, 1, 255) else None)
+                if o_ is None:
+                    if r is UNKNOWN:
+                        return UNKNOWN
+                    raise Stuck("`%s` through %s: no ordering (%r)" % (op_, h_pc.name, r))
+                return {"lt": o_ < 0, "le": o_ <= 0, "gt": o_ > 0, "ge": o_ >= 0}[op_]
         if c.endswith("cmp::PartialEq::ne") and len(raw) == 2:
             # the provided method `ne` of a type whose `eq` is written (or derived) in the crate: `!eq(a, b)` with THAT eq — a
             # hand-written eq may ignore fields, so structural comparison of the abstract values is not the answer
@@ -710,6 +752,14 @@ class Machine:
                 gens = [str(x) for x in (self.subst_generics((tt.get("fn") or {}).get("generics")) or []) if not str(x).startswith("'")]
                 if len(gens) == 2:
                     src_, dst_ = (gens[0], gens[1]) if end == "into" else (gens[1], gens[0])
+                    if "::" in dst_ and not dst_.startswith("std::") and not dst_.startswith("core::") and src_ != dst_:
+                        # `t.into()` through the blanket impl: the crate's `impl From<T> for U` builds the value
+                        import re as _re
+                        strip_ = lambda t_: _re.sub(r"'[a-z_]+,? ?", "", (t_ or "").replace("ruschm::", "")).replace(" ", "").replace("&mut", "").replace("&", "")
+                        cands_ = [f_ for f_ in self.fb.all(self.crate) if f_.name.endswith("::from") and f_.trait and "convert::From" in f_.trait and
+                                  f_.self_ty and strip_(f_.self_ty) == strip_(dst_) and f_.arg_count == 1 and strip_(f_.local_ty(1)) == strip_(src_)]
+                        if len(cands_) == 1:
+                            return self.run(cands_[0], [a0])
                     if dst_.startswith("std::option::Option<") and not src_.startswith("std::option::Option<") and dst_ == "std::option::Option<%s>" % src_:
                         return some(a0)
             return a0
@@ -1565,6 +1615,28 @@ class Machine:
             return LazyIter(g_tw())
         if end == "enumerate":
             return LazyIter([i, x] for i, x in enumerate(drain(a0)))
+        if end in ("tuple_windows", "tuples") and "itertools" in c:
+            # itertools: overlapping (tuple_windows) / disjoint (tuples) tuples of neighbours; the arity is the tuple type asked for
+            gens = [str(x) for x in (((tt or {}).get("fn") or {}).get("generics") or [])]
+            tup = next((g_ for g_ in gens if g_.startswith("(")), None)
+            if tup is None:
+                raise Stuck("%s: tuple arity unknown" % end)
+            depth_, n_ = 0, 1
+            for ch in tup[1:-1]:
+                depth_ += ch in "(<["
+                depth_ -= ch in ")>]"
+                n_ += (ch == "," and depth_ == 0)
+            if tup[1:-1].rstrip().endswith(","):
+                n_ -= 1
+
+            def g_tw_(n_=n_, disjoint=(end == "tuples")):
+                buf = []
+                for x in drain(a0):
+                    buf.append(x)
+                    if len(buf) == n_:
+                        yield list(buf)
+                        buf = [] if disjoint else buf[1:]
+            return LazyIter(g_tw_())
         if end == "rev":
             return Iter(list(reversed(a0.rest())))
         if end in ("by_ref", "peekable", "fuse", "cloned", "copied", "into_iter"):
@@ -1804,5 +1876,5 @@ def _default_of_type(ty):
     if ty.startswith("std::option::Option<"):
         return none()
     return UNKNOWN
-ITER_METHODS = {"map", "filter", "filter_map", "map_while", "take_while", "flatten", "flat_map", "all_equal", "enumerate", "rev", "skip", "take", "zip", "chain", "collect", "count", "last",
+ITER_METHODS = {"tuple_windows", "tuples", "map", "filter", "filter_map", "map_while", "take_while", "flatten", "flat_map", "all_equal", "enumerate", "rev", "skip", "take", "zip", "chain", "collect", "count", "last",
                 "for_each", "fold", "try_fold", "try_for_each", "any", "all", "find", "position", "find_map", "next", "next_back", "nth", "nth_back"}
